@@ -14,6 +14,47 @@
 #include "schedule.h"
 #include "tasking_system_init.h"
 
+#ifdef RKCOMMON_VERIF
+// Verification hook (add-only): named scheduling points between the shared-memory
+// accesses of AsyncLoop.  With RKCOMMON_VERIF undefined the macros expand to
+// nothing; with it defined they call an installed function, if any.
+namespace rkcommon {
+  namespace tasking {
+    namespace verif {
+      typedef void (*SchedPointFcn)(const char *);
+      inline std::atomic<SchedPointFcn> &schedPointHook()
+      {
+        static std::atomic<SchedPointFcn> hook{nullptr};
+        return hook;
+      }
+      inline void schedPoint(const char *name)
+      {
+        SchedPointFcn f = schedPointHook().load();
+        if (f)
+          f(name);
+      }
+      struct SchedPointAtScopeExit
+      {
+        const char *name;
+        ~SchedPointAtScopeExit()
+        {
+          schedPoint(name);
+        }
+      };
+    }  // namespace verif
+  }  // namespace tasking
+}  // namespace rkcommon
+#define RKCOMMON_VERIF_POINT(name) ::rkcommon::tasking::verif::schedPoint(name)
+#define RKCOMMON_VERIF_POINT_AT_SCOPE_EXIT(name)                               \
+  ::rkcommon::tasking::verif::SchedPointAtScopeExit rkcommonVerifScopeExit     \
+  {                                                                            \
+    name                                                                       \
+  }
+#else
+#define RKCOMMON_VERIF_POINT(name)
+#define RKCOMMON_VERIF_POINT_AT_SCOPE_EXIT(name)
+#endif
+
 namespace rkcommon {
   namespace tasking {
 
@@ -78,25 +119,37 @@ namespace rkcommon {
       loop                             = l;
 
       auto mainLoop = [l, fcn]() {
+        RKCOMMON_VERIF_POINT("loop.top");
         while (l->threadShouldBeAlive) {
+          RKCOMMON_VERIF_POINT("loop.alive1");
           if (!l->threadShouldBeAlive)
             return;
+          RKCOMMON_VERIF_POINT("loop.alive2");
 
           // Publish insideLoopBody *before* reading shouldBeRunning: stop()
           // clears the flag and then waits for insideLoopBody to be false, so
           // the body must never be entered on a stale read of the flag.
           l->insideLoopBody = true;
+          RKCOMMON_VERIF_POINT("loop.published");
           if (l->shouldBeRunning) {
+            RKCOMMON_VERIF_POINT("loop.run");
             fcn();
+            RKCOMMON_VERIF_POINT("loop.body_done");
             l->insideLoopBody = false;
           } else {
+            RKCOMMON_VERIF_POINT("loop.norun");
             l->insideLoopBody = false;
+            RKCOMMON_VERIF_POINT("loop.before_lock");
             std::unique_lock<std::mutex> lock(l->runningMutex);
             l->runningCond.wait(lock, [&] {
+              RKCOMMON_VERIF_POINT("loop.pred");
+              RKCOMMON_VERIF_POINT_AT_SCOPE_EXIT("loop.pred_done");
               return l->shouldBeRunning.load() ||
                      !l->threadShouldBeAlive.load();
             });
+            RKCOMMON_VERIF_POINT("loop.wait_done");
           }
+          RKCOMMON_VERIF_POINT("loop.top");
         }
       };
 
@@ -111,16 +164,22 @@ namespace rkcommon {
 
     inline AsyncLoop::~AsyncLoop()
     {
+      RKCOMMON_VERIF_POINT("dtor.enter");
       // Note that the mutex here is still required even though these vars
       // are atomic, because we need to sync with the condition variable waiting
       // state on the async thread. Otherwise we might signal and the thread
       // will miss it, since it wasn't watching.
       {
         std::unique_lock<std::mutex> lock(loop->runningMutex);
+        RKCOMMON_VERIF_POINT("dtor.locked");
         loop->threadShouldBeAlive = false;
+        RKCOMMON_VERIF_POINT("dtor.alive_cleared");
         loop->shouldBeRunning     = false;
+        RKCOMMON_VERIF_POINT("dtor.written");
       }
+      RKCOMMON_VERIF_POINT("dtor.unlocked");
       loop->runningCond.notify_one();
+      RKCOMMON_VERIF_POINT("dtor.notified");
 
       if (backgroundThread.joinable()) {
         backgroundThread.join();
@@ -129,24 +188,33 @@ namespace rkcommon {
 
     inline void AsyncLoop::start()
     {
+      RKCOMMON_VERIF_POINT("start.enter");
       if (!loop->shouldBeRunning) {
+        RKCOMMON_VERIF_POINT("start.before_lock");
         // Note that the mutex here is still required even though these vars
         // are atomic, because we need to sync with the condition variable
         // waiting state on the async thread. Otherwise we might signal and the
         // thread will miss it, since it wasn't watching.
         {
           std::unique_lock<std::mutex> lock(loop->runningMutex);
+          RKCOMMON_VERIF_POINT("start.locked");
           loop->shouldBeRunning = true;
+          RKCOMMON_VERIF_POINT("start.written");
         }
+        RKCOMMON_VERIF_POINT("start.unlocked");
         loop->runningCond.notify_one();
       }
     }
 
     inline void AsyncLoop::stop()
     {
+      RKCOMMON_VERIF_POINT("stop.enter");
       if (loop->shouldBeRunning) {
+        RKCOMMON_VERIF_POINT("stop.before_clear");
         loop->shouldBeRunning = false;
+        RKCOMMON_VERIF_POINT("stop.cleared");
         while (loop->insideLoopBody.load()) {
+          RKCOMMON_VERIF_POINT("stop.yield");
           std::this_thread::yield();
         }
       }
